@@ -149,7 +149,9 @@ def run(ctx):
         judge(ctx, c.get("entry", "replay"), c["op"], ("replay",))
         return
     if ctx.part == "kernel":
-        chars = [chr(i) for i in range(128)] + REPS
+        # all of Latin-1, not only ASCII: U+0080..U+00FF are the non-ASCII characters of a 1-byte-kind str (the compiled quoter's
+        # narrowest storage), each met alone between safe ASCII neighbours
+        chars = [chr(i) for i in range(256)] + REPS
         i = 0
         for ch in chars:
             i += 1
